@@ -538,7 +538,8 @@ fn observe(e: &Value, sigma: &[u8], len: usize, given: &[Vec<u8>], seed: u64) ->
     // every state of the DFA is visited: the shortest string to it, and that string extended by
     // one symbol of sigma
     for s in shortest_per_state(&dfa, 48) {
-        if s.len() > depth {
+        // states the tree cannot reach: deeper than it, or behind a byte outside sigma
+        if s.len() > depth || s.iter().any(|c| !sigma.contains(c)) {
             probes.push(w.probe(&s));
             if !sigma.is_empty() {
                 let mut s2 = s.clone();
@@ -551,19 +552,18 @@ fn observe(e: &Value, sigma: &[u8], len: usize, given: &[Vec<u8>], seed: u64) ->
         let s = guided(&dfa, &mut rng, sigma, 14);
         probes.push(w.probe(&s));
     }
-    if dfa.size() != dfa_size {
-        // every state of the table is reachable from the start state
-        w.consistent = false;
-    }
+    // every state of the table is reachable from the start state (compared with the model only)
+    let size_ok = dfa.size() == dfa_size;
     let coq = format!(
-        "Built {} {} {} {} {} {} {}",
+        "Expr (Built {} {} {} {} {} {} {} {})",
         coq_regex(e),
         cbytes(sigma),
         coq_nfa(start, stop, &states),
         cd,
         tree,
         clist(probes),
-        cbool(w.consistent)
+        cbool(w.consistent),
+        cbool(size_ok)
     );
     Obs::Built(Observed { coq, nfa_size: states.len(), dfa_size, nodes: w.nodes, live: w.live, accepted: w.accepted, rejected: w.rejected })
 }
@@ -597,7 +597,105 @@ fn choose_len(_k: usize) -> usize {
     6
 }
 
+// ---------------------------------------------------------------- production automata
+
+const PROD: [&str; 3] = ["event", "command", "utf8"];
+
+struct ProdDfa {
+    start: usize,
+    delta: Vec<BTreeMap<u8, usize>>,
+    /// (accepting, tags as (is_item, index) in the numbering of Gen/ProdDFA.v / ProdNFA.v)
+    infos: Vec<(bool, Vec<(bool, usize)>)>,
+}
+
+fn prod_dfa(which: &str) -> Option<ProdDfa> {
+    use crate::registry::tool_dfa::{tag_of, Items};
+    let d = surf_n_term::decoder::verif::dump_dfa(which)?;
+    let mut delta: Vec<BTreeMap<u8, usize>> = vec![BTreeMap::new(); d.size];
+    for (from, sym, to) in d.transitions.iter() {
+        delta[*from].insert(*sym, *to);
+    }
+    let mut items = Items::new();
+    let infos = d
+        .infos
+        .iter()
+        .map(|(acc, _, tags)| (*acc, tags.iter().map(|t| tag_of(&mut items, t)).collect()))
+        .collect();
+    Some(ProdDfa { start: d.start, delta, infos })
+}
+
+/// a byte string stepped through a production DFA of the crate (dump of the real table)
+fn run_prod(input: &Value) -> Case {
+    let which = input["automaton"].as_str().unwrap_or("event").to_string();
+    let bytes = vbytes(&input["bytes"]);
+    let idx = PROD.iter().position(|w| *w == which).unwrap_or(0);
+    let w2 = which.clone();
+    let b2 = bytes.clone();
+    let r = catch(move || {
+        let d = prod_dfa(&w2)?;
+        let mut q = Some(d.start);
+        for c in b2.iter() {
+            q = q.and_then(|k| d.delta[k].get(c).copied());
+        }
+        Some(q.map(|k| d.infos[k].clone()))
+    })
+    .flatten();
+    let mut j = input.clone();
+    let tags = vec![format!("production={}", which)];
+    match r {
+        None => {
+            j["impl"] = json!("panic");
+            Case { coq: "Expr (Crashed Nothing)".into(), json: j, tags, nontrivial: true }
+        }
+        Some(None) => {
+            j["impl"] = json!({"dead": true});
+            Case { coq: format!("Prod {} {} true false []", idx, cbytes(&bytes)), json: j, tags, nontrivial: false }
+        }
+        Some(Some((acc, ts))) => {
+            j["impl"] = json!({"dead": false, "accepting": acc, "tags": ts.iter().map(|(i, k)| json!([i, k])).collect::<Vec<_>>()});
+            let ct = clist(ts.iter().map(|(i, k)| format!("({}, {})", cbool(*i), k)));
+            Case {
+                coq: format!("Prod {} {} false {} {}", idx, cbytes(&bytes), cbool(acc), ct),
+                json: j,
+                tags,
+                nontrivial: !bytes.is_empty(),
+            }
+        }
+    }
+}
+
+/// random walks over a production DFA (mostly along live transitions)
+fn prod_probes(rng: &mut Rng, n: usize) -> Vec<Value> {
+    let mut v = vec![];
+    for which in PROD {
+        let d = match catch(move || prod_dfa(which)).flatten() {
+            Some(d) => d,
+            None => continue,
+        };
+        let count = if which == "event" { n } else { n / 4 + 2 };
+        for _ in 0..count {
+            let mut s: Vec<u8> = vec![];
+            let mut q = d.start;
+            let steps = 1 + rng.below(16) as usize;
+            for _ in 0..steps {
+                let live: Vec<u8> = d.delta[q].keys().copied().collect();
+                let c = if live.is_empty() || rng.chance(1, 10) { rng.byte() } else { *rng.pick(&live) };
+                s.push(c);
+                match d.delta[q].get(&c) {
+                    Some(t) => q = *t,
+                    None => break,
+                }
+            }
+            v.push(json!({"automaton": which, "bytes": jbytes(&s)}));
+        }
+    }
+    v
+}
+
 pub fn run(input: &Value) -> Case {
+    if input.get("automaton").is_some() {
+        return run_prod(input);
+    }
     let e = input["e"].clone();
     let key = e.to_string();
     let seed = str_hash(&key);
@@ -625,12 +723,12 @@ pub fn run(input: &Value) -> Case {
         None => {
             j["impl"] = json!("panic");
             tags.push("res=panic".into());
-            Case { coq: format!("Crashed {}", coq_regex(&e)), json: j, tags, nontrivial: true }
+            Case { coq: format!("Expr (Crashed {})", coq_regex(&e)), json: j, tags, nontrivial: true }
         }
         Some(Obs::TooBig) => {
             j["impl"] = json!("skipped: more than 3000 DFA states");
             tags.push("res=skipped".into());
-            Case { coq: format!("Skipped {}", coq_regex(&e)), json: j, tags, nontrivial: false }
+            Case { coq: format!("Expr (Skipped {})", coq_regex(&e)), json: j, tags, nontrivial: false }
         }
         Some(Obs::Built(o)) => {
             j["impl"] = json!({
@@ -670,6 +768,16 @@ fn lit_safe(bs: &[u8]) -> Value {
         lit(bs)
     } else {
         nary("seq", bs.iter().map(|b| pred(&[*b])).collect())
+    }
+}
+
+/// literals that are not a str become sequences of one-byte predicates (same language)
+fn relit(e: &Value) -> Value {
+    match kind(e) {
+        "lit" => lit_safe(&vbytes(&e["bs"])),
+        "seq" | "choice" => nary(kind(e), subs(e).into_iter().map(relit).collect()),
+        "plus" | "opt" | "many" => un(kind(e), relit(&e["e"])),
+        _ => e.clone(),
     }
 }
 
@@ -866,6 +974,18 @@ pub fn generate(rng: &mut Rng, n: usize, tier: &str) -> Vec<Value> {
         v.push(json!({"e": params, "sigma": [27, 91, 48, 59, 109], "len": 4,
                       "probes": [b"\x1b[0;38:5:1;mAaBbm".to_vec(), b"\x1b[m".to_vec(), b"\x1b[;;m".to_vec(), b"\x1b[1Aam".to_vec()]}));
     }
+    // the exhaustive small expressions once more over bytes that are not letters (ESC, 0xff)
+    for size in 1..=3 {
+        for e in enumerate(size, &mut memo) {
+            let txt = e.to_string().replace("[97]", "[27]").replace("[98]", "[255]");
+            if let Ok(e2) = serde_json::from_str::<Value>(&txt) {
+                // literals must be str: 0xff alone is not, use one-byte predicates there
+                v.push(json!({"e": relit(&e2), "sigma": [27, 255, 0], "len": 6}));
+            }
+        }
+    }
+    // the production automata themselves: byte strings walked through the real DFAs
+    v.extend(prod_probes(rng, if thorough { 400 } else { 80 }));
     let fixed = v.len();
     let als: [&[u8]; 8] = [b"ab", b"abc", b"a", b"ab;0", b"\x1b[0;", &[0, 255, 128], &[0xc3, 0xa9, b'a'], &[0x1b, 0x7f, 0x80, 0xff]];
     while v.len() < fixed + n {
@@ -915,9 +1035,9 @@ pub fn generate(rng: &mut Rng, n: usize, tier: &str) -> Vec<Value> {
 pub fn batch(inputs: &[Value]) -> Batch {
     Batch {
         prop: "C15",
-        coq_import: "Corr.C15Corr",
-        case_type: "c15_case",
-        report_fn: "c15_report",
+        coq_import: "Corr.C15All",
+        case_type: "c15_any",
+        report_fn: "c15_any_report",
         rule: "expression with a loop or an optional part whose compiled automaton both accepts and rejects enumerated strings; distinct by expression",
         cases: inputs.iter().map(run).collect(),
         preamble: String::new(),
